@@ -1236,6 +1236,26 @@ func ReachFromAvoiding(fn *ssa.Function, startAfter ssa.Instruction, isTarget fu
 			}
 		}
 	}
+	// ... and values that more than one If of the function tests (a second test of the same value has only one feasible outcome)
+	tested := map[ssa.Value]int{}
+	for _, b := range fn.Blocks {
+		if len(b.Instrs) == 0 {
+			continue
+		}
+		if ifi, ok := b.Instrs[len(b.Instrs)-1].(*ssa.If); ok {
+			base, _ := peel(ifi.Cond)
+			switch base.(type) {
+			case *ssa.Const, *ssa.Phi:
+			default:
+				tested[base]++
+			}
+		}
+	}
+	for v, n := range tested {
+		if n > 1 {
+			tracked[v] = true
+		}
+	}
 	valsKey := func(m map[ssa.Value]bool) string {
 		if len(m) == 0 {
 			return ""
